@@ -187,8 +187,8 @@ CLAIMED = {
              'is "symbol list empty" if and only if the supplied list is empty (the repaired upper_limit fallback is proved to return Some for every '
              'non-empty list) and every other refusal is "too much or illegal data"; C11_macro_total, C11_eci_total (every ECI <= 999999), '
              'C11_padding_total -- the glue cannot panic; C11_mode_encoders -- the six mode encoders raise no other error and never change the symbol '
-             'list or mode set; C11_panic_source -- a panic of the entry point can only originate in the planner or in the main loop; C11_planner_total -- the planner never panics: for every input, symbol list, start mode, all 64 mode sets and every sort that returns a sub-list of its input, optimize returns (invariants of the five plan implementations in lock-step: look-ahead digits, at most two pending C40 values, no unlatch after the X12/EDIFACT end-of-data decision, legal Frac denominators, as_start only on one-switch plans, agreement of all plans on end-of-data; an edge of fuel per iteration), hence C11_encodation_plan_total and C11_panic_is_main_loop; C11_abx_total / C11_ab_total -- for every mode set within {ASCII, Base256, X12} (eight of the 64 sets) the WHOLE property is a theorem (every byte string, list, macro / FNC1 option, ECI up to 999999: never a panic): the planner guarantees strictly decreasing positions, ASCII runs that end at item boundaries of the greedy ASCII encodation Base256 runs of at most 1555 / 1556 bytes and X12 runs of native characters in whole triples (Proofs/PlanAlign.v, also C18_plan_aligned), and under such plans no assertion of the main loop, of maybe_switch_mode, of the Base256 length field or of the X12 value table is reachable (Proofs/EncABTotal.v, EncABXTotal.v). The '
-             'planner terminates within the bound of C19. PARTIAL (mode sets that contain C40, Text or EDIFACT): that the main loop\'s assertions (maybe_switch_mode, the no-progress guard, '
+             'list or mode set; C11_panic_source -- a panic of the entry point can only originate in the planner or in the main loop; C11_planner_total -- the planner never panics: for every input, symbol list, start mode, all 64 mode sets and every sort that returns a sub-list of its input, optimize returns (invariants of the five plan implementations in lock-step: look-ahead digits, at most two pending C40 values, no unlatch after the X12/EDIFACT end-of-data decision, legal Frac denominators, as_start only on one-switch plans, agreement of all plans on end-of-data; an edge of fuel per iteration), hence C11_encodation_plan_total and C11_panic_is_main_loop; C11_abxe_total / C11_abx_total / C11_ab_total -- for every mode set within {ASCII, Base256, X12, EDIFACT} (sixteen of the 64 sets) the WHOLE property is a theorem (every byte string, list, macro / FNC1 option, ECI up to 999999: never a panic): the planner guarantees strictly decreasing positions, ASCII runs that end at item boundaries of the greedy ASCII encodation Base256 runs of at most 1555 / 1556 bytes and X12 runs of native characters in whole triples (Proofs/PlanAlign.v, also C18_plan_aligned), and under such plans no assertion of the main loop, of maybe_switch_mode, of the Base256 length field, of the X12 value table or of the EDIFACT end-of-data handling is reachable (Proofs/EncABTotal.v, EncABXTotal.v, EncABXETotal.v). The '
+             'planner terminates within the bound of C19. PARTIAL (mode sets that contain C40 or Text): that the main loop\'s assertions (maybe_switch_mode, the no-progress guard, '
              'x12/edifact/base256 internal asserts) never fire is planner/encoder agreement and is NOT a theorem; it is decided by running the '
              'implementation in debug and release builds with panics caught, and the model (every panic site explicit), on the same inputs: all '
              '64 mode subsets incl. the empty one and those without ASCII, empty / single / two-symbol lists, macro fragments, FNC1, ECI. '
